@@ -11,7 +11,7 @@ VERIF = os.path.dirname(os.path.dirname(os.path.abspath(__file__)))
 REPO = "/repo"
 SPEC = os.path.join(VERIF, "spec")
 HARNESS_DIR = os.path.join(VERIF, "harness")
-HARNESS_BIN = os.path.join(HARNESS_DIR, "target", "release", "harness")
+HARNESS_BINDIR = os.path.join(HARNESS_DIR, "target", "release")
 TLA_JARS = "/opt/veriftools/tla/tla2tools.jar:/opt/veriftools/tla/CommunityModules-deps.jar"
 TLA_LIB = ":".join([SPEC, os.path.join(SPEC, "mc"), os.path.join(SPEC, "trace")])
 
@@ -41,15 +41,18 @@ def workdir(pid, sub=None, clean=False):
     return d
 
 
-def build_harness():
-    """Rebuild the harness (and therefore the grin crates) from /repo's working tree."""
+def build_harness(engines=None):
+    """Rebuild the harness crates h_<engine> (and therefore the grin crates) from /repo's working tree."""
     t0 = time.time()
     env = dict(os.environ)
     env["CARGO_NET_OFFLINE"] = "true"
     lock = os.path.join(HARNESS_DIR, "Cargo.lock")
     if not os.path.exists(lock):
         shutil.copy(os.path.join(REPO, "Cargo.lock"), lock)
-    p = subprocess.run(["cargo", "build", "--release", "--offline", "-q"], cwd=HARNESS_DIR,
+    cmd = ["cargo", "build", "--release", "--offline", "-q"]
+    for e in (engines or []):
+        cmd += ["-p", "h_" + e]
+    p = subprocess.run(cmd, cwd=HARNESS_DIR,
                        env=env, stdout=subprocess.PIPE, stderr=subprocess.STDOUT, text=True)
     if p.returncode != 0:
         # A tree that does not compile is a tool error, not a verdict.
@@ -59,12 +62,13 @@ def build_harness():
 
 
 def harness(args, stdin=None, timeout=3600, env=None, check=True, cwd=None):
+    """args[0] is the engine name: runs target/release/h_<engine> args[1:]"""
     e = dict(os.environ)
     e.setdefault("RUST_BACKTRACE", "0")
     if env:
         e.update({k: str(v) for k, v in env.items()})
     try:
-        p = subprocess.run([HARNESS_BIN] + [str(a) for a in args], input=stdin, stdout=subprocess.PIPE,
+        p = subprocess.run([os.path.join(HARNESS_BINDIR, "h_" + args[0])] + [str(a) for a in args[1:]], input=stdin, stdout=subprocess.PIPE,
                            stderr=subprocess.PIPE, text=True, timeout=timeout, env=e, cwd=cwd)
     except subprocess.TimeoutExpired:
         raise ToolError("harness timeout: %s" % " ".join(map(str, args)))
